@@ -95,7 +95,7 @@ def r_maps(ctx):
         for kind, p, ret in explore(ctx, fn, max_visits=1):
             pieces |= {pc for pc in path_pieces(p) if pc}
             for e in event_calls(p, 'into_iter'):
-                sorted_ok = sorted_ok or (bool(calls_in(e[2][0], 'sorted_unstable')) and bool(calls_in(e[2][0], 'keys')))
+                sorted_ok = sorted_ok or (guards.sorted_key_order(e[2][0]))
             for e in event_calls(p, 'new_display'):
                 for x in walk(e[2][0]):
                     if x[0] == 'const' and x[1].startswith('"'):
@@ -131,6 +131,8 @@ def r_maps(ctx):
                     if is_call(w, 'is_some') and calls_in(w, 'insert') and l != '0' and kind == 'RET' and ret_kind(ret) in ('err', 'other', 'residual'):
                         ok = True
                     if is_call(w, 'contains_key') and l != '0' and kind == 'RET':
+                        ok = True
+                    if is_call(w, 'entry') and l == 'Occupied' and kind == 'RET' and ret_kind(ret) in ('err', 'other', 'residual'):
                         ok = True
                 # fixed-field objects ({"value": .., "type": ..}): a field seen before (`slot.is_some()`) ⇒ duplicate_field error
                 for e in event_calls(p, 'duplicate_field'):
